@@ -100,7 +100,7 @@ func (c *Ctx) outputRules(r *Report) {
 				continue
 			}
 			n++
-			r.Check(fn == pe, "OUT-who", c.fname(fn), "reference to os."+g.Name(), c.ipos(in), "inside printError", "the process stream os."+g.Name()+" is referenced outside printError")
+			r.Check(c.actsFor(fn, pe), "OUT-who", c.fname(fn), "reference to os."+g.Name(), c.ipos(in), "inside printError", "the process stream os."+g.Name()+" is referenced outside printError")
 		}
 		if ci, ok := in.(ssa.CallInstruction); ok {
 			name := c.calleeName(ci.Common())
@@ -110,7 +110,7 @@ func (c *Ctx) outputRules(r *Report) {
 				r.Check(c.fname(fn) == "(*completion).print", "OUT-who", c.fname(fn), "call "+name, c.ipos(in), "inside completion.print", "direct write to the process streams outside completion.print")
 			case name == "os.Exit":
 				n++
-				ok := fn == pa
+				ok := c.actsFor(fn, pa)
 				if ok {
 					_, a := c.Requires(pa, isInstr(in), litHas(true, litCompletionEnv), nil)
 					_, b := c.Requires(pa, isInstr(in), litHas(false, "nonnil(Parser.CompletionHandler("), nil)
@@ -119,14 +119,14 @@ func (c *Ctx) outputRules(r *Report) {
 				r.Check(ok, "OUT-who", c.fname(fn), "call os.Exit", c.ipos(in), "in ParseArgs, REQ(GO_FLAGS_COMPLETION set ∧ CompletionHandler == nil)", "os.Exit reachable outside the completion branch")
 			case name == "(*completion).print":
 				n++
-				ok := fn == pa
+				ok := c.actsFor(fn, pa)
 				if ok {
 					_, ok = c.Requires(pa, isInstr(in), litHas(true, litCompletionEnv), nil)
 				}
 				r.Check(ok, "OUT-who", c.fname(fn), "call completion.print", c.ipos(in), "in ParseArgs' completion branch", "completion.print called outside the completion branch")
 			case name == "(*Parser).printError":
 				n++
-				r.Check(fn == pa, "OUT-who", c.fname(fn), "call printError", c.ipos(in), "called from ParseArgs", "printError called from "+c.fname(fn))
+				r.Check(c.actsFor(fn, pa), "OUT-who", c.fname(fn), "call printError", c.ipos(in), "called from ParseArgs", "printError called from "+c.fname(fn))
 			}
 		}
 	})
@@ -159,7 +159,7 @@ func (c *Ctx) outputRules(r *Report) {
 		sites, _ := c.callersOf(we)
 		for _, s := range sites {
 			t := c.term(s.Call.Common().Args[0])
-			ok := (s.Fn == pa || c.actsFor(s.Fn, pa)) && (strings.Contains(t, "call:(*Parser).parseLong(") || strings.Contains(t, "call:(*Parser).parseShort("))
+			ok := (c.actsFor(s.Fn, pa) || c.actsFor(s.Fn, pa)) && (strings.Contains(t, "call:(*Parser).parseLong(") || strings.Contains(t, "call:(*Parser).parseShort("))
 			r.Check(ok, "TYPED", c.fname(s.Fn), "wrapError applied to the option parsers' error only", c.ipos(s.Call), "in ParseArgs, on the result of parseLong/parseShort", "wrapError("+trunc(t, 60)+") in "+c.fname(s.Fn)+": a foreign error would surface as ErrUnknown instead of its documented type")
 		}
 	}
@@ -192,11 +192,16 @@ func (c *Ctx) errOrigins(v ssa.Value, at *ssa.BasicBlock, depth int, seen map[ss
 	if seen[v] {
 		return
 	}
-	seen[v] = true
 	if isConstNil(v) {
 		out["nil"] = true
 		return
 	}
+	// at a place reached only after `v.(*Error)` succeeded the value is one of the package's typed errors
+	if at != nil && c.typedAt(v0, at) {
+		out["typed(ok-edge of .(*Error))"] = true
+		return
+	}
+	seen[v] = true
 	switch x := v.(type) {
 	case *ssa.Phi:
 		for i, e := range x.Edges {
@@ -234,6 +239,15 @@ func (c *Ctx) errOrigins(v ssa.Value, at *ssa.BasicBlock, depth int, seen map[ss
 			return
 		}
 		cal := cc.StaticCallee()
+		if c.isNew(cal) && depth < 4 && cal.Signature.Results().Len() == 1 {
+			// a helper extracted around a constructor (returns *Error or error): its returns are the origins
+			c.frames = append(c.frames, x)
+			for _, ret := range returnsOf(cal) {
+				c.errOrigins(ret.Results[0], ret.Block(), depth+1, seen, out)
+			}
+			c.frames = c.frames[:len(c.frames)-1]
+			return
+		}
 		if cal.Blocks != nil && cal.Pkg == c.Pkg && depth < 4 && isErrorType(cal.Signature.Results().At(cal.Signature.Results().Len()-1).Type()) {
 			switch name {
 			case "convert", "convertUnmarshal", "(*Option).call", "unquoteIfPossible", "(*Option).isValidValue", "getBase", "getFormatBase":
